@@ -302,6 +302,9 @@ def _c07():
     hs += disp_harnesses(DISP_UN, tier="thorough")
     hs += retier(step_harnesses(), "thorough") + retier(truth_harnesses(), "thorough")
     hs += [h for h in STORE_LISTS if "_kf" not in h["name"]] + STORE_FRAMES + STORE_READBACK
+    hs += [H("c07_cast_slice_to_list", "rel", "thorough", "ApplyType: slice of a 3-item list cast to List; the slice's range ends are two arbitrary i32 (forward, backwards, empty, negative, past the end): no panic (written after seeded C07-m3: an unchecked usize subtraction of the range ends)"),
+           H("c07_cast_slice_to_char_list", "rel", "thorough", "same slice cast to CharList"),
+           H("c07_cast_range_to_list", "rel", "thorough", "ApplyType: a range with arbitrary i32 ends cast to List")]
     return {
         "claim": "No reachable panic, arithmetic overflow, out-of-bounds index, failed unwrap or unreachable!/unimplemented! in one step of any instruction from an arbitrary valid state, nor in any SimpleNumber operation on any operands: only Kani's own checks (and untagged assertions) count for this property.",
         "functions": ["runtime/src/execute.rs", "runtime/src/runtime/*.rs", "data/src/data/number.rs (all GarnishNumber methods, From<SimpleNumber> for usize)", "data/src/runtime.rs SimpleDataFactory conversions", "traits/src/helpers/concatenation.rs"],
